@@ -143,6 +143,36 @@ Proof.
 Qed.
 Print Assumptions C07_recursive.
 
+(* the property's sentence, literally, when all recursive packages share one exclusion list xs
+   (e.g. it is written at top level only): an unconfigured package is injected iff it has Go
+   files, no regex of xs matches it and it lies below (or is) a configured recursive package;
+   it carries the settings of the nearest such package *)
+Theorem C07_recursive_common_exclusions : forall t root o m0 xs k,
+  full root -> NoDup (map fst m0) -> NoDup (map fst t) -> Permutation o (map fst m0) ->
+  let m1 := init_pkgs root m0 in
+  let final := expand_recursive t root o m0 in
+  (forall r, is_recursive m1 r = true -> c_exsub (cfg_of m1 r) = xs) ->
+  lookup k m1 = None ->
+  (lookup k final <> None <->
+     In (k, true) t /\ excluded_by xs k = false /\ exists r, is_recursive m1 r = true /\ is_subpkg r k = true) /\
+  (forall r, is_recursive m1 r = true -> is_subpkg r k = true ->
+     (forall r', is_recursive m1 r' = true -> is_subpkg r' k = true -> is_subpkg r' r = true) ->
+     In (k, true) t -> excluded_by xs k = false ->
+     exists p', lookup k final = Some p' /\ p_ifaces p' = [] /\ core (p_cfg p') = core (cfg_of m1 r)).
+Proof.
+  intros t root o m0 xs k F NDm NDt P m1 final U E. split.
+  - unfold final. rewrite (injected_iff_adopted t root o m0 k NDm NDt P E). fold m1. split.
+    + intros (r & Hr). pose proof Hr as Hr'. apply (adopter_uniform t m1 xs r k (U r (proj1 Hr))) in Hr'.
+      destruct Hr' as (H1 & H2 & H3 & H4). eauto.
+    + intros (H2 & H4 & r & H1 & H3). exists r. apply (adopter_uniform t m1 xs r k (U r H1)). auto.
+  - intros r H1 H3 Hn H2 H4.
+    assert (adopter t m1 r k) as Hr by (apply (adopter_uniform t m1 xs r k (U r H1)); auto).
+    destruct (adopted_nearest t root o m0 F NDm NDt P k r E Hr) as (p' & E' & Hi & Hc & _).
+    + intros r' Hr'. apply Hn; apply Hr'.
+    + eauto.
+Qed.
+Print Assumptions C07_recursive_common_exclusions.
+
 (* the whole map is the same for every iteration order *)
 Theorem C07_recursive_order_independent : forall t root o o' m0,
   NoDup (map fst m0) -> Permutation o (map fst m0) -> Permutation o' (map fst m0) ->
